@@ -3,8 +3,10 @@ package main
 // The checks register themselves in init functions of their packages.
 import (
 	_ "verif/h/c01"
+	_ "verif/h/c03"
 	_ "verif/h/c04"
 	_ "verif/h/c07"
+	_ "verif/h/c08"
 	_ "verif/h/c13"
 	_ "verif/h/c14"
 	_ "verif/h/c15"
